@@ -368,6 +368,23 @@ struct Heap
         return b.base;
     }
 
+    // F10 (a value constructor threw inside an operation): a block obtained since `first_seq` that the library did not
+    // give back is taken back by the harness, so that it does not count as a leak of a later operation
+    int reclaim_since(int first_seq)
+    {
+        int n = 0;
+        for (int i = first_seq; i < nblocks; ++i)
+        {
+            Block& b = blocks[i];
+            if (!b.live) continue;
+            b.live = false;
+            b.step_free = step;
+            ++n;
+            if (b.bytes != 0 && protect_pages) ::mprotect(b.rw, b.rwlen, PROT_NONE);
+        }
+        return n;
+    }
+
     Block* find_by_base(const void* p)
     {
         for (int i = nblocks - 1; i >= 0; --i)
